@@ -625,6 +625,11 @@ func (e *env) str(v ssa.Value) string {
 				return e.ev.chans.messageStr(mk)
 			}
 		}
+		if call, ok := x.Tuple.(*ssa.Call); ok {
+			if rv, re := e.inlineReturn(call, x.Index); rv != nil {
+				return re.str(rv)
+			}
+		}
 		return fmt.Sprintf("%s#%d", e.str(x.Tuple), x.Index)
 	case *ssa.Next:
 		return "next(" + e.str(x.Iter) + ")"
@@ -652,6 +657,9 @@ func (e *env) str(v ssa.Value) string {
 	case *ssa.MakeSlice:
 		return "make(" + x.Type().String() + "," + e.str(x.Len) + ")@" + x.Parent().Name()
 	case *ssa.Call:
+		if rv, re := e.inlineReturn(x, 0); rv != nil && x.Call.Signature().Results().Len() == 1 {
+			return re.str(rv)
+		}
 		var args []string
 		for _, a := range x.Call.Args {
 			args = append(args, e.str(a))
@@ -1008,4 +1016,52 @@ func paramBehind(v ssa.Value) *ssa.Parameter {
 		return nil
 	}
 	return walk(v)
+}
+
+// inlineReturn (shape mode): result k of a call to a straight-line repository helper — one basic
+// block, no calls that could not be rendered, a single return — is read as the returned expression
+// in the callee's environment, so that "the same arithmetic, moved into a helper" compares equal.
+func (e *env) inlineReturn(call *ssa.Call, k int) (ssa.Value, *env) {
+	if !e.ev.autoIV || call.Call.IsInvoke() {
+		return nil, nil
+	}
+	callee := call.Call.StaticCallee()
+	if callee == nil || len(callee.Blocks) != 1 || callee.Pkg == nil || e.fn.Pkg == nil {
+		return nil, nil
+	}
+	root := e
+	for root.parent != nil {
+		root = root.parent
+	}
+	if root.fn.Pkg == nil || callee.Pkg != root.fn.Pkg {
+		return nil, nil // in-package helpers only
+	}
+	depth := 0
+	for x := e; x != nil; x = x.parent {
+		if x.fn == callee {
+			return nil, nil // recursion
+		}
+		depth++
+	}
+	if depth > 8 {
+		return nil, nil
+	}
+	b := callee.Blocks[0]
+	ret, ok := b.Instrs[len(b.Instrs)-1].(*ssa.Return)
+	if !ok || k >= len(ret.Results) {
+		return nil, nil
+	}
+	for _, in := range b.Instrs {
+		switch in.(type) {
+		case *ssa.Go, *ssa.Defer, *ssa.Send, *ssa.MapUpdate, *ssa.Panic:
+			return nil, nil
+		}
+		if st, ok := in.(*ssa.Store); ok {
+			// stores into the helper's own locals (struct literals, spilled parameters) only
+			if a, ok := lockset.Canon(st.Addr).Root.(*ssa.Alloc); !ok || a.Parent() != callee {
+				return nil, nil
+			}
+		}
+	}
+	return ret.Results[k], e.callEnv(callee, call.Call.Args)
 }
